@@ -24,7 +24,9 @@ def check_pick(ctx):
     if fb_p is None:
         raise AnalysisError('pick_default_policy_file lost its fallback '
                             'switch')
-    t = Table(prog, f)
+    from ..dte import inline_helpers
+    t = Table(prog, f, inline=inline_helpers(prog, modules={POLICY},
+                                             classes=False), max_depth=4)
     W = ctx.where(f.module, f.node)
     F = W.split(':')[0]
     opt = conf_p + '.oslo_policy.policy_file'
@@ -34,12 +36,25 @@ def check_pick(ctx):
             return 'other:' + p.outcome.text()
         e = t.expand(p.outcome.expr)
         if is_const(e):
+            # a constant the configured value is known to equal on this path
+            for c in p.conds:
+                x = c.expr
+                if c.kind == 'test' and c.pol and isinstance(
+                        x, ast.Compare) and isinstance(x.ops[0], ast.Eq):
+                    pair = [x.left, x.comparators[0]]
+                    if any(U(t.expand(y)) == opt for y in pair) and any(
+                            is_const(y, e.value) for y in pair):
+                        return 'configured'
             return 'const:%s' % e.value
         if U(e) == opt:
             return 'configured'
         return 'other:' + U(e)
 
     def loc_names(node):
+        if isinstance(node, (ast.Name, ast.Attribute)):
+            c = prog.const_expr(f.module, node, names_ok=True)
+            if isinstance(c, ast.Tuple):
+                node = c
         out = []
         for x in (node.elts if isinstance(node, (ast.List, ast.Tuple,
                                                  ast.Set)) else [node]):
@@ -127,29 +142,55 @@ def check_pick(ctx):
 def check_file_src(ctx, pick):
     prog = ctx.prog
     init = prog.func(ENF + '.__init__')
-    src = None
-    for n in ast.walk(init.node):
-        if isinstance(n, ast.Assign) and any(
-                self_attr(t) == 'policy_file' for t in n.targets):
-            src = n
-    if src is None:
-        raise AnalysisError('Enforcer.__init__ does not set policy_file')
-    v = src.value
-    ok = False
-    if isinstance(v, ast.BoolOp) and isinstance(v.op, ast.Or) and len(
-            v.values) == 2 and U(v.values[0]) == 'policy_file':
-        c = v.values[1]
-        if isinstance(c, ast.Call) and prog.callee_of(init, c) is pick:
-            a0 = c.args[0] if c.args else kwarg(c, pick.params[0])
-            fb = kwarg(c, pick.params[1], 1)
-            ok = a0 is not None and U(a0) in ('self.conf', 'conf') and \
-                fb is not None and U(fb) == 'fallback_to_json_file'
-    ctx.ob('C09.FILE-SRC', ok, ctx.where(init.module, src), init.qual,
-           U(src)[:120],
-           'policy file = constructor argument, else the picked default '
-           'with the constructor\'s fallback switch' if ok else
-           'the enforcer\'s policy file is not `argument or '
-           'pick_default_policy_file(conf, fallback switch)`')
+    from ..dte import inline_helpers
+    ti = Table(prog, init, inline=inline_helpers(
+        prog, modules={POLICY}, exclude={pick.qual, ENF + '.load_rules',
+                                         ENF + '.set_rules'}),
+        handler_paths=False)
+
+    def is_pick(c):
+        if not (isinstance(c, ast.Call) and prog.callee_of(init, c) is pick):
+            return False
+        a0 = c.args[0] if c.args else kwarg(c, pick.params[0])
+        fb = kwarg(c, pick.params[1], 1)
+        return a0 is not None and U(a0) in ('self.conf', 'conf') and \
+            fb is not None and U(fb) == 'fallback_to_json_file'
+    bad = None
+    nst = 0
+    for p in ti.paths:
+        st = [e for e in p.events if e.kind == 'store'
+              and U(e.node) == 'self.policy_file']
+        if not st:
+            if p.outcome.kind != 'raise':
+                bad = bad or (p, None, 'never stored')
+            continue
+        nst += 1
+        e = st[-1]
+        v = ti.expand(e.value)
+        given = [c.pol for c in p.conds if c.kind == 'test'
+                 and U(c.expr) == 'policy_file'] + [
+            not c.pol for c in p.conds if c.kind == 'test'
+            and U(c.expr) == 'policy_file is None']
+        if isinstance(v, ast.BoolOp) and isinstance(v.op, ast.Or) and len(
+                v.values) == 2 and U(v.values[0]) == 'policy_file' and \
+                is_pick(v.values[1]):
+            continue
+        if given and given[-1] and U(v) == 'policy_file':
+            continue
+        if given and not given[-1] and is_pick(v):
+            continue
+        bad = bad or (p, e, 'self.policy_file = %s' % U(v)[:70])
+    ok = bad is None and nst > 0
+    ctx.ob('C09.FILE-SRC', ok, '%s:%d' % (
+        ctx.where(init.module, init.node).split(':')[0], bad[1].line)
+        if bad and bad[1] is not None else ctx.where(init.module,
+                                                     init.node),
+        init.qual, 'self.policy_file (%d paths)' % nst,
+        'policy file = constructor argument, else the picked default '
+        'with the constructor\'s fallback switch' if ok else
+        'the enforcer\'s policy file is not `argument or '
+        'pick_default_policy_file(conf, fallback switch)` (%s)' % (
+            bad[2] if bad else 'never stored'))
     d = init.defaults().get('fallback_to_json_file')
     ctx.ob('C09.FILE-SRC', is_const(d, True), ctx.where(init.module,
                                                         init.node),
@@ -260,6 +301,41 @@ def _ancestors(pm, node):
         n = pm.get(n)
 
 
+def _dir_order_on_paths(ctx, t, r):
+    """Every directory application on every path of load_rules is given
+    the located path of an entry of option policy_dirs, drawn from a
+    collection that keeps the configured order (no sorted()/reversed())."""
+    prog = ctx.prog
+    n = 0
+    for p in t.paths:
+        for e in p.events:
+            if classify_event(t, e) != 'DIR' or not e.node.args:
+                continue
+            n += 1
+            a0 = e.node.args[0]
+            d = t.en.defs.get(a0.id) if isinstance(a0, ast.Name) else None
+            if not (isinstance(d, ast.Call) and prog.callee_of(
+                    prog.functions.get(e.frame, r.load_rules), d)
+                    is r.get_path and d.args):
+                return False
+            src = d.args[0]
+            sd = t.en.defs.get(src.id) if isinstance(src, ast.Name) else None
+            if not (isinstance(sd, tuple) and sd and sd[0] == 'elem'
+                    and U(t.expand(sd[1])).endswith(
+                        '.oslo_policy.policy_dirs')):
+                return False
+        for c in p.conds:
+            if c.kind == 'loop' and any(
+                    isinstance(x, ast.Call) and U(x.func) in (
+                        'sorted', 'reversed', 'set', 'frozenset')
+                    for x in ast.walk(t.expand(c.expr))) and any(
+                        classify_event(t, e) == 'DIR' for e in p.events):
+                if 'policy_dirs' in U(t.expand(c.expr)) or 'SYM_m' in U(
+                        c.expr):
+                    return False
+    return n > 0
+
+
 def check_dirs(ctx):
     prog = ctx.prog
     t = load_table(ctx)
@@ -366,6 +442,8 @@ def check_dirs(ctx):
                     ok = True
         first = wc.args[0] if wc.args else None
         ok = ok and first is not None and U(first) == U(loop.target)
+        if not ok:
+            ok = _dir_order_on_paths(ctx, t, r)
         ctx.ob('C09.DIR-ORDER', bool(ok), W(wc, fb), fb.qual, U(wc)[:100],
                'directories are applied in the order of option policy_dirs'
                if ok else 'directories are not applied in configured order '
@@ -469,6 +547,8 @@ def check_walker(ctx):
     def is_path(e):
         return isinstance(e, ast.Name) and e.id == path_p
 
+    dot_seen = []
+
     def listing_of(p, name):
         """(kind, listing expr, sorted?, why) following NAME back."""
         cont, opaque = contents(p)
@@ -501,6 +581,26 @@ def check_walker(ctx):
                         bad_order = 'sort with key=/reverse='
                     else:
                         sorted_ok = True
+            if isinstance(inner, (ast.GeneratorExp, ast.ListComp)) and len(
+                    inner.generators) == 1 and U(inner.elt) == U(
+                        inner.generators[0].target):
+                # names filtered by a comprehension: note a dot filter and
+                # go on with what it iterates
+                g0 = inner.generators[0]
+                for cnd in g0.ifs:
+                    x = cnd
+                    neg = False
+                    while isinstance(x, ast.UnaryOp) and isinstance(
+                            x.op, ast.Not):
+                        x, neg = x.operand, not neg
+                    if neg and isinstance(x, ast.Call) and method_call(
+                            x, 'startswith') and x.args and is_const(
+                                x.args[0], '.') and U(
+                                    method_call(x)[0]) == U(g0.target):
+                        dot_seen.append(True)
+                fake = en.fresh(('elem', g0.iter), 'e')
+                e = fake
+                continue
             if isinstance(inner, ast.Name) and inner.id.startswith('SYM_m'):
                 items = cont.get(inner.id, [])
                 if len(items) == 1 and not isinstance(items[0], tuple):
@@ -566,7 +666,9 @@ def check_walker(ctx):
             raw = deref(en, raw_a0)
             if isinstance(raw, ast.Call) and len(raw.args) == 2:
                 name = raw.args[1]
+            del dot_seen[:]
             kind, lst, sorted_ok, bad_order = listing_of(p, name)
+            filtered_in_comp = bool(dot_seen)
             if kind == 'top':
                 note('top', True, 'lists the files of the top level only '
                      '(next(os.walk))', lc.line)
@@ -604,6 +706,7 @@ def check_walker(ctx):
                     same = k2 == kind and U(l2) == U(lst)
                 if same and not c.pol:
                     ok_dot = True
+            ok_dot = ok_dot or filtered_in_comp
             note('dot', ok_dot, 'names starting with a dot are skipped'
                  if ok_dot else 'dot-files in a policy directory are applied '
                  'as policy files', lc.line)
